@@ -408,7 +408,54 @@ func (m *matcher) block(a, b *ast.BlockStmt) bool {
 	return m.stmts(a.List, b.List)
 }
 
+// dropDeferredWipes removes `defer clear(x)` / `defer clear(x[:])` for a plain
+// local x that no return statement of the list mentions: the wipe runs when
+// the function returns, after every use, and x is not part of the result, so
+// no observable value depends on it.
+func dropDeferredWipes(list []ast.Stmt) []ast.Stmt {
+	returned := map[string]bool{}
+	bare := false
+	for _, st := range list {
+		ast.Inspect(st, func(n ast.Node) bool {
+			if r, ok := n.(*ast.ReturnStmt); ok {
+				if len(r.Results) == 0 {
+					bare = true // named results: any local may be a result
+				}
+				for _, e := range r.Results {
+					ast.Inspect(e, func(n ast.Node) bool {
+						if id, ok := n.(*ast.Ident); ok {
+							returned[id.Name] = true
+						}
+						return true
+					})
+				}
+			}
+			return true
+		})
+	}
+	if bare {
+		return list
+	}
+	var out []ast.Stmt
+	for _, st := range list {
+		if d, ok := st.(*ast.DeferStmt); ok {
+			if fn, ok := d.Call.Fun.(*ast.Ident); ok && fn.Name == "clear" && len(d.Call.Args) == 1 {
+				arg := d.Call.Args[0]
+				if sl, ok := arg.(*ast.SliceExpr); ok && sl.Low == nil && sl.High == nil && sl.Max == nil {
+					arg = sl.X
+				}
+				if id, ok := arg.(*ast.Ident); ok && !returned[id.Name] {
+					continue
+				}
+			}
+		}
+		out = append(out, st)
+	}
+	return out
+}
+
 func (m *matcher) stmts(a, b []ast.Stmt) bool {
+	a, b = dropDeferredWipes(a), dropDeferredWipes(b)
 	if len(a) != len(b) {
 		return m.fail("statement count %d vs %d", len(a), len(b))
 	}
